@@ -40,6 +40,7 @@ WEIGHTS = {
     'reinit': 1,
     'addpack_off': 2,
     'addfail': 2,
+    'nested': 2,
 }
 
 
